@@ -356,4 +356,88 @@ theorem refused_not_big {b : List GName} {n : GName} (hr : refusedName b n = tru
   · cases n <;> simp [arity, shapeOf] <;> simp [gateRule] at hr
   · cases hr
 
+/-! ## the composed stages -/
+
+/-- the devices' topologies are those the router knows -/
+def TopoOK (spec : DeviceSpec) : Prop :=
+  spec.topo = none ∨ spec.topo = some .linear ∨ spec.topo = some .circular
+
+/-- inversion of `transpileV` -/
+theorem transpileV_ok {pre : Bool} {spec : DeviceSpec} {N : Nat} {gs out : List Gate}
+    (h : transpileV tables pre spec N gs = .ok out) :
+    ∃ g0 g1, preStage tables pre spec gs = .ok g0 ∧ topoStage spec N g0 = .ok g1 ∧
+      nativeStage tables spec g1 = .ok out := by
+  unfold transpileV at h
+  split at h
+  · cases h
+  · rename_i g0 h0
+    split at h
+    · cases h
+    · rename_i g1 h1
+      exact ⟨g0, g1, h0, h1, h⟩
+
+theorem preStage_false {spec : DeviceSpec} {gs : List Gate} : preStage tables false spec gs = .ok gs := by
+  simp [preStage]
+
+/-- what enters the native stage, repaired composition: in-class and coupled gates -/
+theorem stages_fixed {spec : DeviceSpec} {N : Nat} {gs out : List Gate} (hn : spec.native.isSome = true)
+    (ht : TopoOK spec) (hg : ∀ g ∈ gs, InClass N g) (h : transpileV tables true spec N gs = .ok out) :
+    ∃ g1, (∀ x ∈ g1, InClass N x ∧ gateCoupledB spec.topo N x = true) ∧ nativeStage tables spec g1 = .ok out := by
+  obtain ⟨g0, g1, h0, h1, h2⟩ := transpileV_ok h
+  exact ⟨g1, topoStage_small ht (preStage_small hn hg h0) h1, h2⟩
+
+/-- … and the composition as found, for circuits without gates on more than two qubits -/
+theorem stages_old {spec : DeviceSpec} {N : Nat} {gs out : List Gate}
+    (ht : TopoOK spec) (hg : ∀ g ∈ gs, InClass N g) (h2q : ∀ g ∈ gs, g.qubits.length ≤ 2)
+    (h : transpileV tables false spec N gs = .ok out) :
+    ∃ g1, (∀ x ∈ g1, InClass N x ∧ gateCoupledB spec.topo N x = true) ∧ nativeStage tables spec g1 = .ok out := by
+  obtain ⟨g0, g1, h0, h1, h2⟩ := transpileV_ok h
+  rw [preStage_false] at h0
+  cases h0
+  exact ⟨g1, topoStage_small ht (fun g hgm => ⟨(hg g hgm).1, (hg g hgm).2, h2q g hgm⟩) h1, h2⟩
+
+/-- **refusal, either composition**: a shaped gate whose name the native stage refuses makes
+`transpile` raise, whatever else the circuit contains -/
+theorem transpileV_refuses (pre : Bool) {spec : DeviceSpec} {b : List GName} (hb : spec.native = some b)
+    (ht : TopoOK spec) (N : Nat) (gs : List Gate) (g : Gate) (hg : g ∈ gs) (hsh : shapedB N g = true)
+    (hr : refusedName b g.name = true) : ∃ e, transpileV tables pre spec N gs = .error e := by
+  unfold transpileV
+  cases h0 : preStage tables pre spec gs with
+  | error e => exact ⟨e, rfl⟩
+  | ok g0 =>
+    simp only
+    -- the gate survives the pre-decomposition: it acts on at most two qubits
+    have hg0 : g ∈ g0 := by
+      unfold preStage at h0
+      split at h0
+      · split at h0
+        · rename_i o ho
+          cases h0
+          obtain ⟨a, ha, hsub⟩ := preExpand_sub ho g hg
+          have hsmall : ¬ g.qubits.length > 2 := by
+            rw [shaped_arity hsh]; have := refused_not_big hr; omega
+          unfold expandOne at ha
+          rw [if_neg hsmall] at ha
+          cases ha
+          exact hsub g (List.mem_singleton.mpr rfl)
+        · cases h0
+      · cases h0; exact hg
+    cases h1 : topoStage spec N g0 with
+    | error e => exact ⟨e, rfl⟩
+    | ok g1 =>
+      simp only
+      have hg1 : ∃ x ∈ g1, x.name = g.name := by
+        unfold topoStage at h1
+        split at h1
+        · cases h1; exact ⟨g, hg0, rfl⟩
+        · rename_i s hsome
+          split at h1
+          · rename_i o ho
+            cases h1
+            exact routeStage_keeps_name N s (linCirc hsome ht) g0 _ g hg0 (fun _ => hsh) ho
+          · cases h1; exact ⟨g, hg0, rfl⟩
+          · cases h1
+      obtain ⟨x, hx, hxn⟩ := hg1
+      exact nativeStage_refuses hb hx (by rw [hxn]; exact hr)
+
 end QipVerif.Transpile
